@@ -137,6 +137,34 @@ Definition run_o (o : map_order) (inp : list Z) : list Z :=
           end
       | None => [9]
       end
+  | 3 :: r =>
+      (* chains over a, b, c (harness CHAINS, same order); the literal spelling must give the same answers *)
+      match dec o fuel r with
+      | Some (a, r1) =>
+          match dec o fuel r1 with
+          | Some (b, r2) =>
+              match dec o fuel r2 with
+              | Some (c, r3) =>
+                  let e (x : outcome bool) : Z := match x with Ok t => b2z t | Err _ => 103 | _ => 8 end in
+                  let ch l links := e (chain o l links) in
+                  let res :=
+                    [ ch a [(OIn, b)]; ch a [(ONotIn, b)]; ch a [(ONotIn, b); (ONe, c)]; ch a [(OIn, b); (ONe, c)];
+                      ch a [(OIn, b); (OEq, c)]; ch a [(ONotIn, b); (OEq, c)];
+                      ch c [(ONe, a); (ONotIn, b)]; ch c [(OEq, a); (OIn, b)]; ch a [(OLt, c); (OIn, b)]; ch a [(OLe, c); (ONotIn, b)];
+                      ch a [(OEq, c)]; ch a [(ONe, c)]; ch a [(OLt, c)]; ch a [(OLe, c)]; ch a [(OGt, c)]; ch a [(OGe, c)];
+                      ch a [(OLt, c); (OLt, a)]; ch a [(OLe, c); (OLe, a)]; ch a [(OEq, c); (OEq, a)]; ch a [(ONe, c); (ONe, a)];
+                      ch a [(OLt, c); (ONe, a)]; ch a [(OGe, c); (OGt, a)] ] in
+                  if existsb (fun z => z =? 8) res then [8]
+                  else match r3 with
+                       | 0 :: _ => res
+                       | _ => res ++ res
+                       end
+              | None => [9]
+              end
+          | None => [9]
+          end
+      | None => [9]
+      end
   | 2 :: r =>
       (* containment: [v in c; v not in c; v is in(c); v in (c|list); c[v] is defined (maps only, else 9)] *)
       match dec o fuel r with
